@@ -881,9 +881,9 @@ class Session:
             rec["failed_clauses"] = ["always-panics clause: for some input of the violating class the call RETURNS normally (no panic)"] + rec["failed_clauses"][:3]
         rec["failed_locs"] = [c["loc"] for c in failed][:20]
         # replay
-        reps = []
-        if r2.get("playback"):
-            reps = self.replay(target, config, hc, r2["playback"])
+        # replay the verifier's counterexample on the real code; where it gave none (SMT back end without a
+        # model, stage-2 timeout) or it does not reproduce, the bounded concrete search still runs
+        reps = self.replay(target, config, hc, r2.get("playback") or []) if timeout_s > 0 else []
         rec["replay"] = reps
         reproduced = [x for x in reps if x.get("reproduced")]
         for k in kf:
